@@ -52,17 +52,6 @@ theorem c01_pyhash_iff_hash (a b : CellInfo) (ha : Bytes.WF a.hash) (hb : Bytes.
 
 /-! ## the representation determines the cell -/
 
-theorem ordDepthBytes_eq : ∀ (rs : List Cell), ordDepthBytes rs = (rs.map (fun c => Spec.be2 (ordDepth c))).flatten
-  | [] => rfl
-  | c :: cs => by simp [ordDepthBytes, ordDepthBytes_eq cs]
-
-theorem ordHashes_eq (H : Bytes → Bytes) : ∀ (rs : List Cell), ordHashes H rs = (rs.map (ordHash H)).flatten
-  | [] => rfl
-  | c :: cs => by simp [ordHashes, ordHashes_eq H cs]
-
-theorem ordHash_length (H : Bytes → Bytes) (h32 : ∀ x, (H x).length = 32) : ∀ c, (ordHash H c).length = 32
-  | .mk _ _ _ => by rw [ordHash]; exact h32 _
-
 /-- the standard representation `d1 d2 ++ padded data ++ child depths ++ child hashes` of an ordinary cell (≤ 4
 references, 32-byte hashes) is injective: it determines the BIT STRING (the completion-tag padding is invertible given
 `d2`, for every length 0..1023 and beyond), the number of references, and every child's depth field and hash. -/
